@@ -12,6 +12,8 @@ CLAIMED = {
  "C08": ("exploration", "Seeded sequences and races of compaction requests and range reads; monotone floor model over accepted compactions, stored record followed through the ground truth, reads near the floor compared with the MVCC model.", "6 (C08)"),
  "C09": ("fault_enumeration", "For every sampled script all placements of one unknown-outcome fault (k<=8, applied / not applied), the same combined with each fault kind on the repair write, and fault pairs are executed on the simulated clock through the retry interval; response classification, progress, compaction cap and list+watch convergence are checked.", "6 (C09)"),
  "C11": ("exploration", "Raw engine clients interleaved by the seeded scheduler on every engine and wrapper, with batches and iterators kept open across other clients' commits; a sorted-map reference model runs in lock-step and the final scan must equal it.", "6 (C11)"),
+ "C12": ("exploration", "Seeded sequential request histories replayed in lock-step on four engine stacks under the simulated clock; normalised transcripts (success flags, error-vs-response, values, revision ranks, range contents, events) compared. No schedule dimension: seeded history generation against a differential oracle.", "6 (C12)"),
+ "C13": ("exploration", "Seeded histories read through List/Count/ListByStream/GetPartitions under partition borders injected at the storage seam (index records, mid-version, synthetic keys; any order) and compared with the unpartitioned MVCC model; stream shape and header revisions checked.", "6 (C13)"),
 }
 TECH = "deterministic simulation with fault injection (seeded token scheduler over testing/synctest, simkv fault seam, reference-model oracles)"
 NOTE = "Trusted: Go 1.26.8 testing/synctest quiescence, the simulator's decoder of the key layout, the hook lines (add-only, tag verif). Sampled search: clean run = evidence, not proof."
